@@ -6,7 +6,9 @@ cd "$(dirname "$0")"
 PY=/venv/bin/python; [ -x $PY ] || PY=python3
 export HPACK_REPO=${HPACK_REPO:-/repo}
 $PY tools/translate.py || true
+$PY tools/py2lean.py || true
 cd lean
 lake build HpackVerif driver
+lake build HpackVerif.Props.Src || echo "setup: source tie (Props.Src) unavailable on this tree"
 lake env lean Audit.lean > .lake/audit_setup.txt 2>&1 || true
 echo "setup: $(grep -c AUDIT .lake/audit_setup.txt) theorems audited"
